@@ -44,6 +44,12 @@ def positive_monitor(ctx, s, before, after, t, sol):
     name = type(s).__name__
     if f == "Mader" and not (t > 0):
         return
+    # an answer that is NaN in every dependent field is the documented "no solution here" (t <= 0, outside the domain:
+    # C20's subject), not an inadmissible state
+    dep = [n for n in N if sol[n].dtype.kind == "f" and not n.startswith("position") and n not in ("radius", "xdet")]
+    if dep and all(np.all(np.isnan(np.asarray(sol[n], float))) for n in dep):
+        ctx.count("all_nan_answer_not_judged:" + name)
+        return
     bad = []
     rho = np.asarray(sol["density"], float) if "density" in N else None
     vac = np.zeros(len(sol), dtype=bool) if rho is None else (rho == 0.0)
